@@ -415,6 +415,12 @@ class Trace:
                         c, ty, sq = int(f[1]), f[2], int(f[4].split(":")[0])
                         tk = f[3][2:]
                         stamps[(c, sq)] = None if tk == "-" else int(tk)
+                        em0_ = emitted.get(sq)
+                        if ty != "SEI" and em0_ is not None and "flush_auth" in em0_ and c not in em0_["flush_auth"]:
+                            why_ = ("dependent event %d is sent to client %d, which was not authorized when the tick after the event's emission flushed it: "
+                                    "an unauthorized client gets nothing but independent events, also not later" % (sq, c))
+                            self.add("C07", i, why_)
+                            self.add("C05", i, why_)
                         if ty != "SEI" and not ran:
                             self.add("C04", i, "dependent event %d was put on the wire for client %d in a server frame without a replication tick: what the world changed since the last "
                                                "tick is not replicated yet, so the event outruns the replication it depends on" % (sq, c))
